@@ -731,8 +731,7 @@ func (c *converter) Copy(destination string, source string, valueUsed bool, glob
 	c.sliceCopyHelperRequired = true
 	c.callFunc(sliceCopyHelper, []string{}, c.varName(destination, global), source)
 
-	c.callFunc(sliceLenGetHelper, []string{}, c.varEvaluationString(destination, global))
-	return c.varEvaluationString("_len", true), nil
+	return c.SliceLen(source, valueUsed) // Every element of the source has been copied; the count is kept in a helper of its own.
 }
 
 func (c *converter) Exists(path string, valueUsed bool) (string, error) {
